@@ -664,6 +664,7 @@ def prop_lccb(c):
 # 7. convert-memref-to-arith: extract_aligned_pointer(subview(tsl source))
 
 _BASE = 0x10000
+_PASS: list = []
 
 
 def _mt_text(elt, shape, tsl_text):
@@ -673,7 +674,12 @@ def _mt_text(elt, shape, tsl_text):
 def prop_ptr(c):
     from vlib.ctx import parse
 
-    from snaxc.transforms.convert_memref_to_arith import ConvertMemrefToArithPass
+    if not _PASS:
+        # the pass object `snax-opt -p convert-memref-to-arith` resolves
+        from snaxc.transforms import get_all_snax_passes
+
+        _PASS.append(get_all_snax_passes()["convert-memref-to-arith"]())
+    ConvertMemrefToArithPass = _PASS[0]
 
     r = c["layout"]
     el = _ELSIZE[c["elt"]]
@@ -870,18 +876,18 @@ _NT = "some dimension has tile depth >= 2, or the layout is dynamic, or offset !
 
 SUBS = [
     Sub("affine_map", st_static, prop_affine, budget=dict(quick=4000, thorough=150000), exhaustive=exh_static,
-        floor=dict(quick=7000, thorough=40000), nontrivial_rule=_NT),
+        floor=dict(quick=7000, thorough=120000), nontrivial_rule=_NT),
     Sub("values_overlap_dense", st_static, prop_values, budget=dict(quick=5000, thorough=200000), exhaustive=exh_static,
-        floor=dict(quick=7000, thorough=40000), nontrivial_rule=_NT),
+        floor=dict(quick=7000, thorough=130000), nontrivial_rule=_NT),
     Sub("bound_step_ops", st_ops, prop_ops, budget=dict(quick=6000, thorough=150000),
-        floor=dict(quick=1100, thorough=30000), nontrivial_rule=_NT),
+        floor=dict(quick=1100, thorough=26000), nontrivial_rule=_NT),
     Sub("text_roundtrip", st_text, prop_text, budget=dict(quick=4000, thorough=120000), exhaustive=exh_text,
         floor=dict(quick=1500, thorough=30000), nontrivial_rule=_NT),
     Sub("build_canonicalize", st_build, prop_build, budget=dict(quick=5000, thorough=200000), exhaustive=exh_canon,
-        floor=dict(quick=4500, thorough=20000),
+        floor=dict(quick=4500, thorough=65000),
         nontrivial_rule=_NT + "; for canonicalize additionally the canonical form differs from the input"),
     Sub("common_block", st_lccb, prop_lccb, budget=dict(quick=5000, thorough=150000),
-        floor=dict(quick=450, thorough=15000), nontrivial_rule="the reported block has more than one element and " + _NT),
+        floor=dict(quick=450, thorough=13000), nontrivial_rule="the reported block has more than one element and " + _NT),
     Sub("subview_pointer", st_ptr, prop_ptr, budget=dict(quick=1000, thorough=30000),
-        floor=dict(quick=110, thorough=4000), nontrivial_rule="some subview offset is non-zero and " + _NT),
+        floor=dict(quick=110, thorough=3200), nontrivial_rule="some subview offset is non-zero and " + _NT),
 ]
